@@ -32,6 +32,26 @@ Theorem C19_dead_handle_is_error : forall send_ok, send_msg false send_ok = fals
 Proof. exact dead_handle_is_error. Qed.
 Print Assumptions C19_dead_handle_is_error.
 
+(* composed with the receive path (Recv/Cursor.v, the model of Backend::next that C08 is about): for
+   every interleaving of sends and receive calls, never a panic, and what the receive path yields is
+   exactly what the datagrams received so far decode to, each on its own and tagged with its sender,
+   in sending order: a message boundary set by a sender's send is the boundary the decoder sees *)
+From Portus Require Import Cursor CursorFacts TransportCursor.
+Theorem C19_boundaries_survive_to_the_decoder : forall (bufsize : nat) (ops : list top),
+  Forall (fun o => match o with TSend _ d => (length d <= bufsize)%nat | TRecv => True end) ops ->
+  let st := t_run bufsize ops in
+  run_script bufsize (recv_trace bufsize (mkT [] [] []) ops) = Ok (spec_run bufsize (map dg (t_got st))) /\
+  exists pending, t_sent st = t_got st ++ pending.
+Proof. exact receive_path_sees_sent_prefix. Qed.
+Print Assumptions C19_boundaries_survive_to_the_decoder.
+
+Theorem C19_example_two_senders :
+  run_script 1024 (recv_trace 1024 (mkT [] [] []) ex_ops) =
+    Ok [(MRdy (mkReady 7), 1%N); (MRdy (mkReady 7), 2%N); (MRdy (mkReady 7), 1%N)] /\
+  t_queue (t_run 1024 ex_ops) = [].
+Proof. exact ex_receive_path. Qed.
+Print Assumptions C19_example_two_senders.
+
 (* translator obligations (lib/gen_statespace.py reads the structs, statics and mutable bindings of the
    modelled code on every run): the code has the state the model represents and no other *)
 From Portus Require Import StateTie.
